@@ -16,12 +16,17 @@ _DIR = None
 _CACHE: dict[str, "Cert"] = {}
 
 
+_DIR_PID = None
+
+
 def scratch_dir() -> str:
-    global _DIR
-    if _DIR is None or not os.path.isdir(_DIR):
+    """Per-process directory: forked workers must not overwrite each other's PEM files."""
+    global _DIR, _DIR_PID
+    if _DIR is None or _DIR_PID != os.getpid() or not os.path.isdir(_DIR):
         from . import scratch
 
         _DIR = scratch.subdir(f"certs-{os.getpid()}")
+        _DIR_PID = os.getpid()
     return _DIR
 
 
